@@ -1,3 +1,4 @@
+import SqlModel.KwNorm
 import SqlModel.Accessors
 import SqlModel.Sexp
 import SqlModel.Default
@@ -66,7 +67,7 @@ def accCase (p : Path) (e : CaseEntry) : String :=
 
 /-- the items of one group node -/
 def accGroup (root : Node) (p : Path) (c : Cls) (ks : List Node) : List String := Id.run do
-  let up := pyUpper
+  let up := kwNorm
   let abs (q : Path) := accPath (p ++ q)
   let mut out : List String := []
   out := out ++ ["fl=" ++ accList ((flattenPathsL ks p 0).map accPath)]
